@@ -144,6 +144,12 @@ def run(prop, seed, budget, ctx):
                 for k in bad: hist["bad:" + k] += 1
                 failures.append({"kind": "P", "k_ok": True, "cls": c["cls"], "src": c["src"], "fields": c["fields"], "ca": c["ca"], "dep": c["dep"], "val": c["val"], "group": c["group"], "val2": c.get("val2"),
                                  "aliaser": dn, "external_names": want, "bad_views": bad, "why": ["views-disagree-on-the-external-name:" + ",".join(sorted(bad))]})
+    # the keys of a flattened class are names like the others: what serialize emits for a class that uses it several times (plainly, under field
+    # constraints / validators), deserialize reads back
+    import engine_ser
+    ff, fn = engine_ser.run_flat_reuse(rnd, seed, budget, hist, distinct)
+    for f in ff: f["k_ok"] = True; f["why"] = ["flattened-keys-accepted-by-one-view-and-not-by-another:" + f["why"][0]]
+    failures += ff; evaluations += fn
     import gql_args
     gf, gn, gd, gh = gql_args.run_part(seed, budget)
     failures += gf; evaluations += gn; distinct |= gd
@@ -169,6 +175,7 @@ def is_known(kid, case):
 def replay(prop, case, ctx):
     from apischema.utils import to_camel_case
     if case.get("part") == "gql-args": return {k: case.get(k) for k in ("src", "op", "aliaser", "why", "info")}
+    if case.get("part") == "ordered": return {k: case.get(k) for k in ("class_src", "value", "serialized", "why")}
     DYN = {"identity": (lambda s: s), "camel": to_camel_case, "custom": (lambda s: s + "_")}
     mod = build_module(HEADER + ["from apischema.objects import get_alias", ""] + case["src"], "aliasreplay")
     c = {k: case.get(k) for k in ("cls", "src", "fields", "ca", "dep", "val", "group", "val2")}; c["fields"] = [tuple(f) for f in c["fields"]]
